@@ -197,6 +197,12 @@ impl MutableArchive {
     /// This method checks the modified state first, then falls back to the original archive.
     /// This ensures that renamed files can still be read correctly.
     pub fn read_file(&mut self, name: &str) -> Result<Vec<u8>> {
+        // A name the current tables do not hold has been removed or renamed away in this
+        // session; the archive as it was opened may still have it, but it is gone
+        if self.find_file_entry(&name.replace('/', "\\"))?.is_none() {
+            return Err(Error::FileNotFound(name.to_string()));
+        }
+
         // Try to read using the current modified state first
         match self.read_current_file(name) {
             Ok(data) => Ok(data),
